@@ -1,0 +1,7 @@
+//go:build !verif
+
+package wire
+
+func verifRecover() {}
+
+func verifPoint(string) {}
